@@ -58,6 +58,11 @@ func genC20(r *gen.Rand) *C20Case {
 	tc.Bulk(r, bigDoc)
 	bigDoc["pad2"] = strings.Repeat("0123456789abcdef", r.Range(300, 5000)) // larger than any write buffer
 	put("big.yaml", bigDoc)
+	// the same base name in different directories
+	w.Dirs = append(w.Dirs, c20Dir+"/d2")
+	put("d/c.json", map[string]any{"c": "in-d", "n": 2})
+	put("d2/e.yaml", map[string]any{"e": "in-d2"})
+	put("d2/a.b.yaml", map[string]any{"standalone": true, "$parent": false})
 	// unusual but legal file names
 	put("x,y.yaml", map[string]any{"comma": 1})
 	put("sp ace.yaml", map[string]any{"space": 1})
@@ -73,7 +78,7 @@ func genC20(r *gen.Rand) *C20Case {
 	raw("plain", "words\n")
 	// argument vector
 	good := []string{"a.yaml", "a.b.yaml", "c.json", "d/e.yaml", "t.toml", "./a.b.yaml", "d/../c.json", "./d/e.yaml", "p.q.yaml", "p.q.json", "big.yaml", "big.json",
-		"x,y.yaml", "x,y.json", "sp ace.yaml", "uni-é.json", "uni-é.yaml", "eq=ual.yaml", "semi;colon.json", "-dash.yaml"}
+		"d/c.json", "d2/e.yaml", "d2/e.json", "d/c.yaml", "d2/a.b.yaml", "x,y.yaml", "x,y.json", "sp ace.yaml", "uni-é.json", "uni-é.yaml", "eq=ual.yaml", "semi;colon.json", "-dash.yaml"}
 	virtual := []string{"a.b.json", "c.yaml", "a.toml", "d/e.json", "c.yml", "a.b.jsonl"}
 	failing := []string{"bad.yaml", "bad2.json", "broken.yaml", "bad.json", "bad3.yaml", "bad3.json"}
 	pass := []string{"apply", "get", "-f", "-v", "--dry-run", "--opt=value", "--file=a.b.yaml", "-o=c.json", "notes.txt", "x.ini", "plain",
